@@ -11,16 +11,18 @@ record placement vs `writerPlace`, `data_length` vs the growth/shrink rule, afte
 """
 import io
 
-from harness import core, histcheck, isoapi
+from harness import core, histcheck, isoapi, isotie
 from harness.props import c01
 
-LEAN_MODULES = ['Pycdlib.Props.C04', 'Pycdlib.Props.Tie', 'Pycdlib.Props.C04PathTable', 'Pycdlib.Props.TiePack']
+LEAN_MODULES = ['Pycdlib.Props.C04', 'Pycdlib.Props.Tie', 'Pycdlib.Props.C04PathTable', 'Pycdlib.Props.TiePack', 'Pycdlib.Props.C04Iso']
 THEOREMS = ['Pycdlib.place_disjoint', 'Pycdlib.place_in_bounds', 'Pycdlib.place_end_exact', 'Pycdlib.space_delta_exact',
             'Pycdlib.sectors_fit', 'Pycdlib.insert_grows_le_one', 'Pycdlib.grow_keeps_fit', 'Pycdlib.shrink_keeps_fit',
             'Pycdlib.nfScan_append', 'Pycdlib.writer_matches_cache', 'Pycdlib.writer_no_straddle', 'Pycdlib.ceiling_div_tie',
             'Pycdlib.PathTable.run_exact', 'Pycdlib.PathTable.add_to_ptr_size_tie', 'Pycdlib.PathTable.remove_from_ptr_size_tie',
             'Pycdlib.PathTable.space_size_tie', 'Pycdlib.PathTable.addAll_independent_of_copies',
-            'Pycdlib.dr_recalc_tie', 'Pycdlib.dr_recalc_init_tie']
+            'Pycdlib.dr_recalc_tie', 'Pycdlib.dr_recalc_init_tie',
+            'Pycdlib.Iso.space_exact', 'Pycdlib.Iso.dirs_covered', 'Pycdlib.Iso.path_tables_exact', 'Pycdlib.Iso.layout_sound',
+            'Pycdlib.Iso.step_inv', 'Pycdlib.Iso.invB_iff', 'Pycdlib.Iso.init0_inv']
 PARTIAL = {
     'space_exact_partial': 'declared size = end of the last object is proved for the sequential placement model and for the '
     'per-directory bookkeeping; the composition over the whole edit-state machine (all object kinds, Rock Ridge continuation '
@@ -114,6 +116,8 @@ def post(ctx, c, rep):
             if d.data_length < need or d.data_length % 2048:
                 ctx.violation('C04.dir-length', 'directory %s%r data_length %d does not cover its records (%d needed)' % (tag, path, d.data_length, need), rp)
         ctx.traces_validated += len(reqs)
+    # the size bookkeeping of every edit against the Lean machine (Model/Iso, theorems in Props/C04Iso)
+    isotie.check_history(ctx, c.cfg, c.ops, rp)
 
 
 def run(ctx):
